@@ -318,7 +318,13 @@ func (e editor) list(from *Selection, to *Selection, m *meta.List, new bool, str
 			return fmt.Errorf("could not create destination list node %s", to.Path)
 		}
 		toChild.Path.Key = key
-		if err = e.enter(fromChild, toChild, newItem, editUpsert, false, false); err != nil {
+		// below an entry that had to be created everything is new, otherwise an
+		// update must keep failing on containers and entries that do not exist
+		itemStrategy := editUpsert
+		if strategy == editUpdate {
+			itemStrategy = editUpdate
+		}
+		if err = e.enter(fromChild, toChild, newItem, itemStrategy, false, false); err != nil {
 			return err
 		}
 
